@@ -44,7 +44,9 @@ REGISTRY = dict(
           "dominant part (err2 uses |op v_j| instead of Expokit's |op v_{j+1}|): kernel-checked exact model run "
           "(early_accept_witness) + replay on the real code against scipy on every run. FINDING D21-C07 (open, class "
           "krylov-accept-err1-ignores-err2): err = err1 whenever err1 < err2 lets a vanishing err1 (exp(alpha) ~ 1) override "
-          "err2 >= tol; witness replayed on every run. FINDING D22-C07 (open, class krylov-estimate-not-shift-invariant): for "
+          "err2 >= tol; witness replayed on every run. FINDING D23-C07 (open, class krylov-orthogonality-loss): single-pass "
+          "Gram-Schmidt loses orthogonality (measured > 1e-6 on the real run's vectors) for large |A| with small sub-diagonals. "
+          "FINDING D22-C07 (open, class krylov-estimate-not-shift-invariant): for "
           "A = -i(a*1+K) with |a| >> |K| both estimates shrink like 1/|a| while the error does not. The public krylov_exp is modelled with its own parameter list and "
           "driven with distinct tolerances in both orders (public_krylov_exp_uses_callers_tolerances)."),
     note=("Trusted: Lean kernel + propext/Classical.choice/Quot.sound; Mathlib; hand-written Model.Krylov tied to the "
@@ -181,6 +183,7 @@ def gen_weak_case(rng):
 KNOWN_CLASS = "krylov-early-accept-avnorm"
 KNOWN_CLASS_ERR1 = "krylov-accept-err1-ignores-err2"
 KNOWN_CLASS_SHIFT = "krylov-estimate-not-shift-invariant"
+KNOWN_CLASS_ORTH = "krylov-orthogonality-loss"
 
 
 def witness_case_err1():
@@ -239,7 +242,36 @@ def classify(case, r, its):
     e1s = abs(scipy.linalg.expm(arg)[j + 1, 0])
     if abs(sigma) > 1.0 and not e1s < case["tol"]:
         return KNOWN_CLASS_SHIFT
+    # D23: the Lanczos/Arnoldi vectors of the real run have lost orthogonality (single-pass modified Gram-Schmidt,
+    # rounding amplified by |A|/n2 per step): measured on the vectors the real run hands to `op`
+    if orth_loss(case) > 1e-6:
+        return KNOWN_CLASS_ORTH
     return None
+
+
+def orth_loss(case):
+    """max_{i<j} |<q_i, q_j>| over the vectors the real krylov_exp_impl passes to `op` (they are its lanczos_vectors)."""
+    from emu_base.math.krylov_exp import krylov_exp_impl
+    a = torch.from_numpy(np.ascontiguousarray(case["a"])).to(torch.complex128)
+    v = torch.from_numpy(np.ascontiguousarray(case["v"])).to(torch.complex128).reshape(case["shape"])
+    n = case["n"]
+    qs = []
+
+    def op(x):
+        qs.append(x.detach().clone().reshape(-1).numpy())
+        return (a @ x.reshape(n, -1)).reshape(x.shape)
+
+    try:
+        krylov_exp_impl(op, v.clone(), is_hermitian=case["herm"], exp_tolerance=case["tol"],
+                        norm_tolerance=case["norm_tol"], max_krylov_dim=case["md"])
+    except Exception:
+        return 0.0
+    if len(qs) < 2:
+        return 0.0
+    q = np.array(qs)
+    g = np.abs(q.conj() @ q.T)
+    np.fill_diagonal(g, 0.0)
+    return float(g.max())
 
 
 LATTICE = [0.01, 0.5, 1 - 2.0 ** -40, 1.0, 1 + 2.0 ** -40, 2.0]
@@ -789,10 +821,8 @@ def compare_dense(case, kind, r, rec, m, its, rep):
     threshold is within TIE / the vectors are rounding noise; T and the result to TREL."""
     if kind == "unbound":
         return None if m["status"] == "err unbound" else f"real: UnboundLocalError, model: {m['status']}"
-    if m["status"] != "ok":
-        return f"real returned, model: {m['status']}"
     scale = max([abs(t["n"]) for t in its] + [1e-300])
-    # any n2 so small that it is rounding noise relative to |op q|, or within TIE of norm_tol -> not judged
+    # FIRST the screening: any n2 that is rounding noise relative to |op q|, or within 1e-7 of norm_tol -> counted, not judged
     for t in its:
         if t["n2"] <= 1e-9 * scale and case["norm_tol"] <= 1e-9 * scale:
             rep.count("dense_noise_skips")
@@ -800,6 +830,8 @@ def compare_dense(case, kind, r, rec, m, its, rep):
         if abs(t["n2"] - case["norm_tol"]) <= 1e-7 * max(t["n2"], case["norm_tol"]):
             rep.count("near_ties")
             return None
+    if m["status"] != "ok":
+        return f"real returned, model: {m['status']}"
     if near_tie(case, m):
         rep.count("near_ties")
         return None
